@@ -333,28 +333,20 @@ def hw_parser(db, rep):
         return
     f = fs[0]
     pname = f["params"][0]["var"]
-    # the inner loop's if-chain classifies one character
+    # the body of the inner (per-group) loop classifies one character: it is EXECUTED for each of the 256 byte values
+    # (ieval.trace; a file-local digit helper is executed too), so an if/else-if chain, early exits or a helper
+    # function are the same thing to the rule
     chain = None
     for n in facts.fn_nodes(f):
         if n["k"] == "WhileStmt":
-            inner = [x for x in facts.walk(n["c"][-1]) if x["k"] == "WhileStmt"]
+            inner = [x for x in facts.walk(n["c"][-1]) if x["k"] in ("WhileStmt", "ForStmt")]
             if inner:
-                body = inner[0]["c"][-1]
-                ifs = [x for x in body.get("c", []) if isinstance(x, dict) and x["k"] == "IfStmt"]
-                if ifs:
-                    chain = (inner[0], ifs[0], body)
+                chain = (inner[0], inner[0]["c"][-1])
     if chain is None:
-        rep.analysis_broken("string_to_hw_address: cannot find the per-character classification chain")
+        rep.analysis_broken("string_to_hw_address: cannot find the per-character loop")
         return
-    loop, first_if, body = chain
-    from vlib import bits
-    locals_ = bits.Bounds(f, False).single_assign()
-    # locals assigned inside the loop body before the chain (e.g. `char c = hw_addr[i] | 0x20`)
-    for x in body.get("c", []):
-        if isinstance(x, dict) and x["k"] == "DeclStmt":
-            for v in x.get("c", []):
-                if v.get("k") == "VarDecl" and v.get("c"):
-                    locals_[v["var"]] = v["c"][0]
+    loop, body = chain
+    first_if = loop
 
     def is_input(e):
         e0 = e
@@ -362,50 +354,30 @@ def hw_parser(db, rep):
             o = strip(e0["c"][1])
             return o["k"] == "DeclRefExpr" and o.get("var") == pname
         return False
-
-    def classify(ifn, env):
-        """walk the if / else-if chain"""
-        cur = ifn
-        while cur is not None and cur["k"] == "IfStmt":
-            cs = [x for x in cur["c"]]
-            condn = cs[0] if cs[0] is not None else cs[1]
-            then = cs[1] if cs[0] is not None and len(cs) > 1 else cs[2]
-            els = cs[2] if len(cs) > 2 and cs[0] is not None else (cs[3] if len(cs) > 3 else None)
-            # layout: [cond, then, else] (init/var slots absent)
-            real = [x for x in cs if x is not None]
-            condn, then = real[0], real[1]
-            els = real[2] if len(real) > 2 else None
-            v = ieval.ev(f, condn, env, locals_)
-            if v:
-                return then
-            cur = els
-            if cur is not None and cur["k"] != "IfStmt":
-                return cur
-        return None
-
-    accepted, separators, rejected = {}, [], []
+    # the accumulator: the local that receives `(acc << 4) | digit`
+    acc = None
+    for x in facts.walk(body):
+        if x["k"] == "BinaryOperator" and x.get("op") == "=" and strip(x["c"][0])["k"] == "DeclRefExpr" and \
+                any(y["k"] == "BinaryOperator" and y.get("op") == "<<" for y in facts.walk(x["c"][1])):
+            acc = strip(x["c"][0])["var"]
+    if acc is None:
+        rep.analysis_broken("string_to_hw_address: the `(tmp << 4) | digit` accumulation was not found")
+        return
+    accepted, separators, rejected, ignored = {}, [], [], []
     try:
         for cval in range(256):
-            env = {"__input__": cval, "__is_input__": is_input}
-            br = classify(first_if, env)
-            if br is None:
+            env = {"__input__": cval, "__is_input__": is_input, "__db__": db, acc: 0}
+            final = {}
+            eff = ieval.trace(f, body, env, final=final)
+            kinds = [k_ for k_, _ in eff]
+            if "throw" in kinds:
                 rejected.append(cval)
-                continue
-            kinds = set(x["k"] for x in facts.walk(br))
-            if "CXXThrowExpr" in kinds:
-                rejected.append(cval)
-            elif "BreakStmt" in kinds:
+            elif "break" in kinds:
                 separators.append(cval)
+            elif any(k_ == "assign" and strip(n_["c"][0]).get("var") == acc for k_, n_ in eff if n_.get("c")):
+                accepted[cval] = final.get(acc, 0) & 0xff
             else:
-                # digit: value = the operand OR-ed into tmp
-                val = None
-                for x in facts.walk(br):
-                    if x["k"] == "BinaryOperator" and x["op"] == "|":
-                        try:
-                            val = ieval.ev(f, x["c"][1], env, locals_) & 0xff
-                        except ieval.Unknown:
-                            val = None
-                accepted[cval] = val
+                ignored.append(cval)        # neither a digit nor a separator nor an error: silently skipped
     except ieval.Unknown as e:
         rep.undecided("R4-rejection", "string_to_hw_address:accept-set", facts.loc(f), "character tests outside the evaluator: %s" % e)
         return
@@ -414,8 +386,10 @@ def hw_parser(db, rep):
     extra = sorted(set(accepted) - set(hexd))
     missing = sorted(set(hexd) - set(accepted))
     wrongv = sorted(c for c in accepted if c in hexd and accepted[c] != hexd[c])
-    if extra or missing or wrongv or separators != [ord(":")]:
+    if extra or missing or wrongv or separators != [ord(":")] or ignored:
         what = []
+        if ignored:
+            what.append("silently skips the bytes %s instead of rejecting them" % ["0x%02x" % c for c in ignored[:8]])
         if extra:
             what.append("accepts the non-hex bytes %s as digits" % ["0x%02x" % c for c in extra[:8]])
         if missing:
@@ -444,7 +418,8 @@ def r5(db, rep):
         for c in cons:
             a = c.get("c", [])
             if len(a) >= 2:
-                t0, t1 = facts.expr_str(a[0]), facts.expr_str(a[1])
+                # named locals for the two ends are the expressions they were initialised with
+                t0, t1 = facts.expr_str(facts.inline_locals(f, a[0], all_types=True)), facts.expr_str(facts.inline_locals(f, a[1], all_types=True))
                 p0, p1 = f["params"][0]["name"], f["params"][1]["name"]
                 okf = ("&" in t0 and p0 in t0 and p1 in t0 and "last_address_from_mask" in t1 and p0 in t1 and p1 in t1)
         (rep.ok if okf else rep.violation)("R5-mask-ops", key, facts.loc(f),
@@ -606,16 +581,15 @@ def r7(db, rep):
             v &= 0xffffffff
             return ((v & 0xff) << 24) | ((v & 0xff00) << 8) | ((v >> 8) & 0xff00) | (v >> 24)
 
-        def tf(x):
+        def tf(x, env):
             if x["k"] == "CallExpr" and x.get("cname") in ("host_to_be", "be_to_host") and len(x["c"]) == 2:
-                return bswap(ieval.ev(f, x["c"][1], {"__termfn__": tf, pv: tf.p}))
+                return bswap(ieval.ev(f, x["c"][1], env))
             return None
         bad = None
         try:
             for p_ in range(33):
-                tf.p = p_
                 try:
-                    v = ieval.run_body(f, f["body"], {"__termfn__": tf, pv: p_})
+                    v = ieval.run_body(f, f["body"], {"__termfn2__": tf, pv: p_})
                 except ieval.Undefined as e:
                     bad = "prefix length %d: undefined behaviour: %s" % (p_, e)
                     break
